@@ -155,6 +155,50 @@ def runCfg : Settings → List (String × String) → List String
   | _, [] => []
   | m, kv :: rest => let m' := setVar m kv.1 kv.2; hexString (configBody m') :: runCfg m' rest
 
+/-! settings, several directories in one process: `hist cfgw <ndirs> <event>*` with events
+`B:<d>:<0|1>` ([ZeroMods;] SetConfigDir d), `S:<hexk>:<hexv>` (setq), `E:<d>:N` (config.lisp of d
+removed), `E:<d>:F[,<hexk>=<hexv>]*` (replaced by the header and these setqs), `X` (process ends).
+Reply: after each event the files of the directories `0 … ndirs-1` joined by `;`: `-` = none,
+`+<hex of the body>`. -/
+
+def parseKV (s : String) : Option (String × String) :=
+  match s.splitOn "=" with
+  | [k, v] => do
+      let k ← unhexString? k
+      let v ← unhexString? v
+      some (k, v)
+  | _ => none
+
+def parseCfgEvent (s : String) : Option CfgEvent :=
+  match s.splitOn ":" with
+  | ["B", d, z] => do
+      let d ← d.toNat?
+      some (.start d (z == "1"))
+  | ["S", k, v] => do
+      let k ← unhexString? k
+      let v ← unhexString? v
+      some (.setq k v)
+  | ["E", d, c] => do
+      let d ← d.toNat?
+      if c == "N" then some (.ext d none) else
+      match c.splitOn "," with
+      | "F" :: kvs => do
+          let kvs ← kvs.mapM parseKV
+          some (.ext d (some kvs))
+      | _ => none
+  | ["X"] => some .exit
+  | _ => none
+
+def showDisk (n : Nat) (p : CfgProc) : String :=
+  ";".intercalate ((List.range n).map (fun d =>
+    match p.disk d with
+    | none => "-"
+    | some m => "+" ++ hexString (configBody m)))
+
+def runCfgW (n : Nat) : CfgProc → List CfgEvent → List String
+  | _, [] => []
+  | p, e :: rest => let p' := p.apply e; showDisk n p' :: runCfgW n p' rest
+
 def okBool (b : Bool) : String := if b then "ok t" else "ok nil"
 
 def handle (entry : String) (args : List String) : String :=
@@ -197,6 +241,10 @@ def handle (entry : String) (args : List String) : String :=
     match ops.mapM parseSet with
     | some ops => " ".intercalate ("ok" :: runCfg [] ops)
     | none => "bad-request cfg-args"
+  | "cfgw", n :: evs =>
+    match n.toNat?, evs.mapM parseCfgEvent with
+    | some n, some evs => " ".intercalate ("ok" :: runCfgW n CfgProc.init evs)
+    | _, _ => "bad-request cfgw-args"
   | _, _ => "bad-request entry"
 
 end SlipVerif.Driver.History
